@@ -97,3 +97,10 @@ package dtls
 //@ loop #1: all-failed: called("Conn.openCiphertextWithGeneration") ==> !isNil(retErr("Conn.openCiphertextWithGeneration", 2)) && sameRef(candidateErr, retErr("Conn.openCiphertextWithGeneration", 2)) && LASTGEN().Epoch <= remoteEpoch && eligible
 //@ loop #1: none-tried: !called("Conn.openCiphertextWithGeneration") ==> isNil(candidateErr)
 //@ end
+
+// A record of a retained (older) generation is numbered in that generation's epoch: the truncated sequence number is
+// completed against the highest number seen in the epoch the record was protected in, not the current read epoch.
+//@ func Conn.openCiphertextWithGeneration
+//@ watch Conn.highestRemoteSequenceNumber
+//@ ensures sequence-completed-in-the-records-epoch: called("Conn.highestRemoteSequenceNumber") ==> uint16(argInt("Conn.highestRemoteSequenceNumber", 1)) == generation.Epoch
+//@ end
